@@ -533,12 +533,24 @@ type FuncSpec struct {
 	Uses            []string
 	Splits          []*SplitSpec
 	Asserts         []*Clause
+	CallAsserts     []*CallAssert // before / after <callee>[#n]: assertions anchored at a call site
+	Only            []string      // partial contract: only obligations whose name contains one of these are claimed
 	NoPanicOff      bool
 	Implementations bool // contract on an interface method, checked against every implementation
 	Reveal          []string
 	File            string
 	Line            int
 	Timeout         int
+}
+
+// CallAssert is an assertion in the caller's context at the n-th call of a
+// callee (occurrence order of generation): "before" sees the actual arguments
+// as arg0, arg1, ... (receiver first), "after" also the results as ret0, ...
+type CallAssert struct {
+	After  bool
+	Callee string // e.g. (*Entry).merge or yang.(*Entry).merge
+	N      int    // 1-based occurrence
+	C      *Clause
 }
 
 type SpecFn struct {
@@ -605,7 +617,7 @@ var clauseKW = map[string]bool{
 	"modifies": true, "loop": true, "invariant": true, "decreases": true, "safe": true,
 	"nowrap": true, "wrapok": true, "inline": true, "trusted": true, "uses": true, "split": true, "props": true,
 	"axiom": true, "induction": true, "guarded_by": true, "pure": true, "assert": true, "timeout": true,
-	"trigger": true, "abstract": true, "opaque": true, "reveal": true, "implementations": true, "body_ensures": true, "body_returns": true, "lock_property": true, "init_only": true, "write_guarded_by": true,
+	"trigger": true, "abstract": true, "opaque": true, "reveal": true, "implementations": true, "body_ensures": true, "body_returns": true, "lock_property": true, "init_only": true, "write_guarded_by": true, "before": true, "after": true, "only": true,
 }
 
 func splitName(rest string) (name, body string) {
@@ -876,6 +888,29 @@ func (sf *SpecFile) Load(path, pkg string) (err error) {
 				return fmt.Errorf("%s:%d: assert outside func", path, rc.line)
 			}
 			cur.Asserts = append(cur.Asserts, mk())
+		case "only":
+			if cur == nil {
+				return fmt.Errorf("%s:%d: only outside func", path, rc.line)
+			}
+			cur.Only = append(cur.Only, strings.Fields(rc.rest)...)
+		case "before", "after":
+			if cur == nil {
+				return fmt.Errorf("%s:%d: %s outside func", path, rc.line, rc.kw)
+			}
+			name, body := splitName(rc.rest)
+			body = strings.TrimSpace(body)
+			j := strings.IndexAny(body, " \t")
+			if j < 0 {
+				return fmt.Errorf("%s:%d: %s <callee>[#n] <expr>", path, rc.line, rc.kw)
+			}
+			callee, ex := body[:j], strings.TrimSpace(body[j:])
+			n := 1
+			if h := strings.LastIndex(callee, "#"); h > 0 {
+				fmt.Sscan(callee[h+1:], &n)
+				callee = callee[:h]
+			}
+			cur.CallAsserts = append(cur.CallAsserts, &CallAssert{After: rc.kw == "after", Callee: callee, N: n,
+				C: &Clause{Kind: rc.kw, Name: name, Text: ex, Expr: sf.mustExpr(ex, path, rc.line), File: path, Line: rc.line}})
 		case "modifies":
 			if cur == nil {
 				return fmt.Errorf("%s:%d: modifies outside func", path, rc.line)
